@@ -225,6 +225,10 @@ def run_life(c, P):
     app = App(c, w, P)
     ck = dict(poll=1e9, ping_rate=0, ping_timeout=None, close_timeout=None, auto_pong=True)
     ck.update(P.get('connect', {}))
+    if P.get('connect_options'):
+        # rarely used values of the connect() options (a solver variable picks the set)
+        opts = P['connect_options']
+        ck.update(opts[c.choose(len(opts), 'connect_opts')])
     if P.get('record_selector'):
         # observe selector.close() through the documented extension points (session_class / _selector_cls)
         from lomond.session import WebsocketSession
@@ -390,7 +394,8 @@ def check_c07(c, w, rec, app, P):
     if rec.budget is not None:
         silent = w.default_script.end == 'silence'
         ck = P.get('connect', {})
-        armed = (ck.get('close_timeout') and any(x['action'] in ('close', 'close_default') for x in app.calls)) \
+        # (a Close frame was sent - by the application or as the echo of a server Close - so close_timeout runs)
+        armed = (ck.get('close_timeout') and (any(x['action'] in ('close', 'close_default') for x in app.calls) or 'closing' in names)) \
             or ck.get('ping_timeout')
         if silent and not armed:
             # a silent peer with no timeout armed: waiting forever is the specified behaviour
@@ -690,8 +695,9 @@ def check_c09(c, w, rec, app, ws, errors, end, P):
     # socket released
     for s in w.socks:
         if s.connected and not s.closed:
-            # tolerated only if close() itself / shutdown() was made to fail
-            if not any(op in ('close', 'shutdown') for op, n, k in inj):
+            # tolerated only if close() itself was made to fail, or shutdown() raised something that is not a socket error
+            # (a socket error from shutdown() - the connection is gone - does not dispense from close())
+            if not any(op == 'close' or (op == 'shutdown' and k != 'oserror') for op, n, k in inj):
                 c.fail('C09: socket %d left open (events %s, faults %s)' % (s.id, names, inj),
                        sig='C09: socket left open')
     sess = ws.state.session
@@ -723,9 +729,10 @@ def check_c13(c, w, rec, app, ws, P):
     mech = P.get('abandon_mechanism') or 'break'
     cls.add('abandon@%s' % at)
     cls.add('mech:%s' % mech)
+    inj = list(getattr(w.fault_hook, 'injected', None) or [])
     for s in w.socks:
         if s.connected and not s.closed:
-            c.fail('C13: socket left open after abandoning the loop at %s by %s (events %s)' % (at, mech, names),
+            c.fail('C13: socket left open after abandoning the loop at %s by %s (events %s, faults %s)' % (at, mech, names, inj),
                    sig='C13: socket left open after abandoning at %s' % at)
     if mech == 'with-held':
         # the generator is still referenced, so only the socket is required to be released by the with-block exit
